@@ -17,6 +17,9 @@ Whys(e) ==
   IF e.op # "fault" THEN <<"H:unknown-op">>
   ELSE IF e.mode = "base" THEN
     <<IF e.res.kind = "ok" /\ e.reads = 0 /\ e.words > 0 THEN "H:base-run-read-nothing" ELSE "ok">>
+  ELSE IF e.mode = "rerun" THEN
+    \* the same recipe on the same source bytes, in another process with another environment, some time later
+    <<IF e.same # 1 THEN "P:C09:same-source-bytes-gave-a-different-result-in-another-process-or-at-another-time" ELSE "ok">>
   ELSE IF e.mode = "error" THEN
     <<IF e.res.kind \notin {"panic", "err"} THEN "P:C09:a-password-was-returned-although-the-random-source-failed" ELSE "ok",
       IF e.res.kind = "err" THEN "S:source-failure-surfaced-as-an-error-value-instead-of-a-panic" ELSE "ok">>
@@ -26,11 +29,11 @@ Whys(e) ==
 RECURSIVE BadOf(_,_,_)
 BadOf(line, ws, i) == IF i > Len(ws) THEN <<>>
                       ELSE (IF ws[i] = "ok" THEN <<>> ELSE <<Bad(line, ws[i])>>) \o BadOf(line, ws, i+1)
-Init == l = 1 /\ bad = <<>> /\ done = FALSE /\ stats = [base |-> 0, error |-> 0, short |-> 0]
+Init == l = 1 /\ bad = <<>> /\ done = FALSE /\ stats = [base |-> 0, error |-> 0, short |-> 0, rerun |-> 0]
 Step == /\ l <= NLines
         /\ LET e == Trace[l] IN
              /\ bad' = bad \o BadOf(l, Whys(e), 1)
-             /\ stats' = IF e.op = "fault" /\ e.mode \in {"base", "error", "short"} THEN [stats EXCEPT ![e.mode] = @ + 1] ELSE stats
+             /\ stats' = IF e.op = "fault" /\ e.mode \in {"base", "error", "short", "rerun"} THEN [stats EXCEPT ![e.mode] = @ + 1] ELSE stats
         /\ l' = l + 1 /\ UNCHANGED done
 Finish == /\ l = NLines + 1 /\ ~done /\ WriteResult(bad, stats) /\ done' = TRUE /\ UNCHANGED <<l, bad, stats>>
 Next == Step \/ Finish
